@@ -16,7 +16,7 @@ import os
 
 from nverif.engine import ROOT
 
-PATH = os.path.join(ROOT, 'known_findings.json')
+PATH = os.environ.get('NVERIF_FINDINGS') or os.path.join(ROOT, 'known_findings.json')    # override: development only
 
 
 def _match_one(spec, kv):
